@@ -633,3 +633,6 @@ func (x *Exec) RunOnce() (out Outcome) {
 
 // Store returns the store of the last run.
 func (x *Exec) Store() *flyt.SharedStore { return x.store }
+
+// RootNode returns the built root node object.
+func (x *Exec) RootNode() flyt.Node { return x.nodes[x.Sc.Root] }
